@@ -86,8 +86,8 @@ Theorem state_trace_verdict_refuted :
     state_is_trace_one d B v atol np_rtol = true /\
     ~ kle Fq (kabs (csub Fq (re (state_trace d B v)) (c1 Fq))) atol.
 Proof. exists 4%nat, q2, pauli2n, w_state, w_atol.
-  repeat split; try exact pauli2n_orthonormal; try exact pauli2n_hermitian; try exact pauli2n_identity0.
-  - apply (proj1 (k_leb Fq _ _)). reflexivity. - exact w_state_coded. - exact w_state_defect. Qed.
+  split; [exact pauli2n_orthonormal|]. split; [exact pauli2n_hermitian|]. split; [exact pauli2n_identity0|].
+  split; [apply (proj1 (k_leb Fq _ _)); reflexivity|]. split; [exact w_state_coded|exact w_state_defect]. Qed.
 Theorem povm_identity_sum_refuted :
   exists (d : nat) (sd : Qc) (B : nat -> cmat Fq) (m : nat) (vs : nat -> rvec Fq) (atol : Qc),
     basis_orthonormal d B /\ basis_hermitian d B /\ @basis_0th_identity Fq d sd B /\ kle Fq (c0 Fq) atol /\
@@ -95,9 +95,9 @@ Theorem povm_identity_sum_refuted :
     exists i j, (i < d)%nat /\ (j < d)%nat /\
       ~ kle Fq (znorm2 (zsub (povm_sum d B m vs i j) (cdelta i j))) (cmul Fq atol atol).
 Proof. exists 4%nat, q2, pauli2n, 2%nat, w_povm, w_atol.
-  repeat split; try exact pauli2n_orthonormal; try exact pauli2n_hermitian; try exact pauli2n_identity0.
-  - apply (proj1 (k_leb Fq _ _)). reflexivity. - exact w_povm_coded.
-  - exists 0%nat, 0%nat. repeat split; try lia. exact w_povm_defect. Qed.
+  split; [exact pauli2n_orthonormal|]. split; [exact pauli2n_hermitian|]. split; [exact pauli2n_identity0|].
+  split; [apply (proj1 (k_leb Fq _ _)); reflexivity|]. split; [exact w_povm_coded|].
+  exists 0%nat, 0%nat. split; [lia|]. split; [lia|]. exact w_povm_defect. Qed.
 
 (* ---- non-vacuity: boundary objects that pass every verdict at tolerance 0 *)
 (* |00><00| = (II + IZ + ZI + ZZ)/4 : coefficients 1/2 at indices 0, 3, 12, 15  (pure, rank 1) *)
